@@ -159,6 +159,22 @@ def body_indexes(ctx, conv, kind, nreq, mode):
         out = cv.select_indexes(idxs)
         ctx.check('index' in out.dims, 'default index dimension name')
         check_selected(ctx, ds, out, info, kind, reqs, 'index', 'select_indexes')
+    elif mode == 'after_edit':
+        # "the values stored at those cells" are the values stored when the selection is made: an earlier
+        # selection through the same convention, followed by in-place edits of the dataset, changes nothing
+        cv.select_index(idxs[0])
+        name = info['on_kind'][kind][0]
+        fresh = numpy.empty(ds[name].shape, dtype=object if ctx.symbolic else float)
+        for k, idx in enumerate(numpy.ndindex(*fresh.shape)):
+            fresh[idx] = ctx.real(f'e{k}', nan=True, hint=900.0 + k)
+        ds[name] = (ds[name].dims, fresh)
+        added = numpy.empty(shape, dtype=object if ctx.symbolic else float)
+        for k, idx in enumerate(numpy.ndindex(*shape)):
+            added[idx] = ctx.real(f'a{k}', nan=True, hint=700.0 + k)
+        ds['added'] = (dims, added)
+        info['on_kind'][kind] = list(info['on_kind'][kind]) + ['added']
+        out = cv.select_indexes(idxs)
+        check_selected(ctx, ds, out, info, kind, reqs, 'index', 'select_indexes after an in-place edit')
     elif mode == 'custom_dim':
         out = cv.select_indexes(idxs, index_dimension='pick')
         check_selected(ctx, ds, out, info, kind, reqs, 'pick', 'select_indexes(index_dimension=)')
@@ -180,37 +196,65 @@ def body_indexes(ctx, conv, kind, nreq, mode):
 class OutcomeTree:
     """STRtree contract specialised to point requests whose outcome is a symbolic
     integer: query(point k) returns [] (miss) or [cell] for the outcome of request k."""
-    def __init__(self, geoms, outcomes):
+    def __init__(self, geoms, outcomes, multi=None):
         self.geometries = numpy.asarray(geoms, dtype=object)
         self.outcomes = outcomes
+        self.multi = multi or [False] * len(outcomes)
 
     def query(self, geometry, predicate=None, distance=None):
         if predicate != 'intersects':
             raise HarnessError(f'OutcomeTree: unexpected predicate {predicate!r}')
         k = int(round(geometry.x))
         o = self.outcomes[k]
+        if self.multi[k] and 0 <= o < len(self.geometries) - 1 and self.geometries[o + 1] is not None:
+            # a point on a shared boundary: two hits, and the tree documents no order - higher index first
+            return numpy.array([o + 1, o], dtype=numpy.intp)
         return numpy.array([] if o < 0 else [o], dtype=numpy.intp)
 
 
-def body_points(ctx, conv, nreq, policy, api, dimname):
+class DescendingTree:
+    """Replay side of the 'hits come in no particular order' contract: the real STRtree, its hits reported
+    highest index first."""
+    def __init__(self, tree):
+        self.tree = tree
+        self.geometries = tree.geometries
+
+    def query(self, geometry, predicate=None, distance=None):
+        hits = self.tree.query(geometry, predicate=predicate, distance=distance)
+        return numpy.sort(hits)[::-1]
+
+
+def body_points(ctx, conv, nreq, policy, api, dimname, boundary=False):
     ds, cv, info = make(ctx, conv)
     polygons = cv.polygons
     N = len(polygons)
     dims, shape = info['kinds']['face']
     outcomes = [int(ctx.int(f'o{k}', -1, N - 1)) for k in range(nreq)]     # forks: (N+1)^nreq outcome vectors
+    multi = [bool(ctx.bool(f'm{k}')) for k in range(nreq)] if boundary else [False] * nreq
     ctx.note('request', dict(conv=conv, outcomes=outcomes, policy=policy, api=api))
     if ctx.symbolic:
-        cv.__dict__['strtree'] = OutcomeTree(polygons, outcomes)
+        cv.__dict__['strtree'] = OutcomeTree(polygons, outcomes, multi)
         State = __import__('emsarray.state', fromlist=['State']).State
         coords = [(float(k), 0.0) for k in range(nreq)]
     else:
         coords = []
-        for o in outcomes:
+        for k, o in enumerate(outcomes):
             if o < 0:
                 coords.append((-1000.0 - len(coords), -1000.0))
-            else:
-                p = polygons[o].representative_point()
-                coords.append((p.x, p.y))
+                continue
+            p = polygons[o].representative_point()
+            if multi[k]:
+                # a point on the boundary shared with a higher-numbered cell; the cell it denotes is the lowest
+                # one that really intersects it (decided by GEOS, not by the tree order)
+                for o2 in range(o + 1, N):
+                    if polygons[o2] is not None and polygons[o2].intersects(polygons[o]):
+                        p = polygons[o2].intersection(polygons[o]).representative_point()
+                        break
+                real = [i for i in range(N) if polygons[i] is not None and polygons[i].intersects(p)]
+                outcomes[k] = min(real) if real else -1
+            coords.append((p.x, p.y))
+        if boundary:
+            cv.__dict__['strtree'] = DescendingTree(cv.strtree)
     # bind so that dataset.ems (used by extract_points) is this convention instance
     from emsarray.state import State
     st = State.get(ds)
@@ -300,6 +344,9 @@ def cases(tier):
             n = 2 if (q or kind in ('node', 'edge')) else 3
             yield Case(f'index:{conv}:{kind}:select_indexes{n}', body_indexes, dict(conv=conv, kind=kind, nreq=n, mode='select_indexes'),
                        max_paths=50000, split=16)
+            if kind in ('face', 'node'):
+                yield Case(f'index:{conv}:{kind}:after_edit', body_indexes, dict(conv=conv, kind=kind, nreq=2, mode='after_edit'),
+                           max_paths=5000, split=8)
             if kind in ('face', 'left'):
                 yield Case(f'index:{conv}:{kind}:custom_dim', body_indexes, dict(conv=conv, kind=kind, nreq=2, mode='custom_dim'), max_paths=5000, split=8)
             if len(kinds) > 1 and kind == 'face':
@@ -313,6 +360,12 @@ def cases(tier):
         for policy in ('error', 'drop', 'fill'):
             yield Case(f'points:{conv}:extract_dataframe:{policy}:{nreq}', body_points,
                        dict(conv=conv, nreq=nreq, policy=policy, api='extract_dataframe', dimname=None), max_paths=50000, split=16)
+        # points on shared cell boundaries: several hits in no particular order, the lowest index is the cell
+        yield Case(f'points:{conv}:select_points:drop:boundary', body_points,
+                   dict(conv=conv, nreq=2, policy='drop', api='select_points', dimname=None, boundary=True), max_paths=50000, split=16)
+        yield Case(f'points:{conv}:extract_dataframe:fill:boundary', body_points,
+                   dict(conv=conv, nreq=2 if q else 3, policy='fill', api='extract_dataframe', dimname=None, boundary=True),
+                   max_paths=100000, split=32)
         yield Case(f'points:{conv}:extract_dataframe:fill:custom', body_points,
                    dict(conv=conv, nreq=2, policy='fill', api='extract_dataframe', dimname='station'), max_paths=50000, split=8)
 
